@@ -18,8 +18,8 @@ Theorem C07_vp9_no_panic : forall hist, ~ In DPanic (snd (dec_run dinit hist)).
 Proof. exact total. Qed.
 Print Assumptions C07_vp9_no_panic.
 
-Example C07_vp9_example : (* last packet of a 3-packet key frame lost, then an intact non-key frame *)
+Example C07_vp9_example : (* last packet of a 2-packet key frame lost, then an intact non-key frame *)
   option_map (fun pss => snd (dec_run dinit (removelast (hd [] pss) ++ concat (tl pss))))
              (enc_many 14 10 5 [[130; 73; 131; 66; 0; 39; 240; 29; 240; 1; 2; 3]; [134; 9; 8]])
-  = Some [DMore; DMore; DFrame [134; 9; 8]].
+  = Some [DMore; DFrame [134; 9; 8]].
 Proof. vm_compute. reflexivity. Qed.
